@@ -131,7 +131,7 @@ reg("C05", exc_ops=set(), nontrivial=nt_we, hook="wepages", obs_fail=True,
 reg("C06", exc_ops=WRITE_OPS | RULE_OPS, nontrivial=nt_we, hook="potential",
     mc=[("core", 4, 5), ("we", 4, 5), ("wesub", 0, 5)],
     gen_mc="we",
-    weights={"AddRule": 14, "RemoveRule": 4, "AddPage": 25, "DeleteWe": 12},
+    weights={"AddRule": 14, "RemoveRule": 4, "AddPage": 25, "DeleteWe": 12, "Clear": 5},
     profile={"raw": 0.0, "long": 0.15, "adversarial": 0.4, "redeclare": 0.8}, title="Automatic creation")
 reg("C07", exc_ops=set(), nontrivial=nt_links, hook="network", obs_fail=False,
     weights={"AddLinks": 24, "IndexBatchCrawl": 16, "CreateWe": 10, "AddPrefix": 10, "RemovePrefix": 5, "DeleteWe": 5},
